@@ -85,6 +85,55 @@ if op in ("put", "get", "keys"):
     elif op == "keys":
         if sorted(h.keys()) != sorted(ref):
             bad.append("listing differs from put keys")
+elif op in ("session-get", "collection-set-get", "backend-put", "update_keys"):
+    import molli as ml
+    from molli.storage.backends import UkvCollectionBackend
+    from molli.storage.collection import Collection
+    sizes = [10 ** 9] if op == "session-get" else [cap(w.get("bufsize", -1), -1, 10 ** 9), 10 ** 9, 0, -1]
+    for bufsize in sizes:
+        if os.path.exists(p):
+            os.remove(p)
+        c = Collection(p, UkvCollectionBackend, overwrite=True, readonly=False, bufsize=bufsize)
+        with c.writing():
+            c["first"] = b"1"
+        with c.writing():
+            c["k"] = b"value-k"
+            for key in list(c.keys()):
+                try:
+                    got = c[key]
+                    if key == "k" and got != b"value-k":
+                        bad.append("listed key read back wrong bytes inside the session")
+                except BaseException as e:
+                    bad.append(f"bufsize={bufsize}: key {key!r} is listed inside the writing session but reading it raised {type(e).__name__}")
+        with c.reading():
+            if sorted(c.keys()) != ["first", "k"]:
+                bad.append(f"bufsize={bufsize}: listing after the session is {sorted(c.keys())}")
+        if bad:
+            break
+    if op == "update_keys" and not bad:
+        # stale advertised key set: a failed put on handle A, then one successful put through handle B
+        if os.path.exists(p):
+            os.remove(p)
+        A = Collection(p, UkvCollectionBackend, overwrite=True, readonly=False, bufsize=0)
+        B = Collection(p, UkvCollectionBackend, readonly=False, bufsize=0)
+        with A.writing():
+            A["a"] = b"1"
+        try:
+            with A.writing():
+                A["K" * 256] = b"x"
+        except BaseException as e:
+            print("failed put raised", type(e).__name__)
+        with B.writing():
+            B["b"] = b"2"
+        with A.reading():
+            ks = sorted(A.keys())
+            if ks != ["a", "b"]:
+                bad.append(f"handle A lists {[k[:8] for k in ks]} but the file holds ['a', 'b']")
+            for k in ks:
+                try:
+                    A[k]
+                except BaseException as e:
+                    bad.append(f"listed key {k[:8]!r} unreadable: {type(e).__name__}")
 elif op == "script":
     # generic operation script on 1..3 handles: [["open",hid,mode],["put",hid,khex,vhex],["get",hid,khex],["close",hid],...]
     hs = {}
